@@ -33,7 +33,10 @@ PROPS = {
     },
     "C03": {
         "title": "lunar months tile time: 29/30 days, 12/13 per year, no gaps or overlaps",
-        "mc": {"quick": [{"module": "MC_MonthClock", "cfg": "MC_MonthClock.cfg", "workers": 4}]},
+        "mc": {"quick": [{"module": "MC_MonthClock", "cfg": "MC_MonthClock.cfg", "workers": 4},
+                         {"module": "MC_MonthStep", "cfg": "MC_MonthStep.cfg", "workers": 4}],
+               "thorough": [{"module": "MC_MonthClock", "cfg": "MC_MonthClock.cfg", "workers": 4},
+                            {"module": "MC_MonthStep", "cfg": "MC_MonthStep_big.cfg", "workers": 6, "heap": "8g"}]},
         "rule": "month walks by LunarMonth::next(1) over years 0-30, 230-245, 1640-1650, 1955-1965, 7990-8010, 9988-9999 + 40 seeded decades (quick) or all years 0..9999 (thorough); "
                 "each lunation also through from_ym, the uncached constructor, next(0), next(-1), next(n) for 12 step counts; one record per lunar year. "
                 "Non-trivial: leap months and their twins, first/last months of a year, leap years",
